@@ -205,6 +205,11 @@ def report(pid, tier, seed, H, recs, wall):
                     knowns.append((gid, hit[0], g))
                 else:
                     violations.append((gid, r, g))
+            elif v == "unconfirmed" and any(fnmatch.fnmatch(gid, k["obligation"]) for k in openk):
+                # an obligation of a LISTED open finding came back sat, but this run's model did not reproduce on the real code (the listed
+                # failing input does): neither a new violation nor an encoder problem -- reported as inconclusive
+                n_unknown += 1
+                unknowns.append((gid, "sat at an obligation of a listed known finding; this model did not reproduce on the real code"))
             else:  # unconfirmed, vacuous, harness-error, encoder-error, sat-noreplay
                 herrs.append((gid, v, g.get("reason") or g.get("replay")))
     os.makedirs(os.path.join(OUT, pid), exist_ok=True)
